@@ -22,6 +22,8 @@ func c09(r *core.Report) {
 	c09Boundary(r)
 	c09Backtrack(r)
 	c09Stable(r)
+	c09LessPos(r)
+	c09TryAll(r)
 	c09VarNames(r)
 	c09EveryServer(r)
 	c09ParamPrecedence(r)
